@@ -214,7 +214,7 @@ func c16Scope(e *Env, pool *hx.Pool, r *hx.Rand, n int) {
 // reIndexRef: DROP INDEX / ALTER INDEX "<first>"[."<second>"]
 var reIndexRef = regexp.MustCompile(`(?i)^\s*(?:DROP|ALTER)\s+INDEX\s+(?:CONCURRENTLY\s+)?(?:IF\s+EXISTS\s+)?("(?:[^"]|"")*")(\.("(?:[^"]|"")*"))?`)
 
-var reSchemaStmt = regexp.MustCompile(`(?i)^\s*(CREATE|DROP|ALTER)\s+(SCHEMA|DATABASE)\b`)
+var reSchemaStmt = regexp.MustCompile(`(?i)^\s*((CREATE|DROP|ALTER)\s+(SCHEMA|DATABASE)|COMMENT\s+ON\s+SCHEMA)\b`)
 
 // c16Marker runs one marker case on a real planner and monitors every statement.
 func c16Marker(e *Env, c c16Case) {
@@ -284,6 +284,18 @@ func c16Marker(e *Env, c c16Case) {
 				[]schema.Change{&schema.DropObject{O: free}},
 				[]schema.Change{&schema.ModifyObject{From: free, To: grown}},
 				[]schema.Change{&schema.DropTable{T: t3}, &schema.DropObject{O: &schema.EnumType{T: "en_TBLC", Values: []string{"a", "b"}, Schema: s}}},
+			)
+			// an enum type that is attached to no schema (built through the Go API without EnumSchema): its
+			// references follow the requested qualifier like every other reference
+			nos := &schema.EnumType{T: "en_nosch", Values: []string{"p", "q"}}
+			nosGrown := &schema.EnumType{T: "en_nosch", Values: []string{"p", "q", "r"}}
+			tn := schema.NewTable("TBLB").SetSchema(s).AddColumns(schema.NewIntColumn("id", ity))
+			opts = append(opts,
+				[]schema.Change{&schema.AddObject{O: nos}},
+				[]schema.Change{&schema.DropObject{O: nos}},
+				[]schema.Change{&schema.ModifyObject{From: nos, To: nosGrown}},
+				[]schema.Change{&schema.ModifyTable{T: tn, Changes: []schema.Change{&schema.AddColumn{C: schema.NewColumn("st_nosch").SetType(nos)}}}},
+				[]schema.Change{&schema.ModifyTable{T: tn, Changes: []schema.Change{&schema.AddColumn{C: schema.NewColumn("sts_nosch").SetType(&postgres.ArrayType{T: "en_nosch[]", Type: nos}).SetNull(true)}}}},
 			)
 		}
 		if t1.Attrs != nil {
@@ -358,11 +370,17 @@ func c16Marker(e *Env, c c16Case) {
 				case *schema.ModifySchema:
 					tabs[ch.S.Name] = true
 				case *schema.AddObject:
-					objs[ch.O.(*schema.EnumType).Schema.Name] = true
+					if en := ch.O.(*schema.EnumType); en.Schema != nil {
+						objs[en.Schema.Name] = true
+					}
 				case *schema.DropObject:
-					objs[ch.O.(*schema.EnumType).Schema.Name] = true
+					if en := ch.O.(*schema.EnumType); en.Schema != nil {
+						objs[en.Schema.Name] = true
+					}
 				case *schema.ModifyObject:
-					objs[ch.To.(*schema.EnumType).Schema.Name] = true
+					if en := ch.To.(*schema.EnumType); en.Schema != nil {
+						objs[en.Schema.Name] = true
+					}
 				}
 			}
 			if len(tabs) > 1 {
@@ -389,7 +407,7 @@ func c16Marker(e *Env, c c16Case) {
 		return
 	}
 	tables := []string{"TBLA", "TBLB", "TBLC", "TBLR"}
-	types := []string{"en_TBLA", "en_TBLB", "en_TBLC", "en_free"}
+	types := []string{"en_TBLA", "en_TBLB", "en_TBLC", "en_free", "en_nosch"}
 	check := func(stmt, where string) bool {
 		ids := splitIdents(stmt, qb)
 		for _, id := range ids {
